@@ -7,6 +7,7 @@ import (
 	"os"
 	"os/exec"
 	"path/filepath"
+	"regexp"
 	"sort"
 	"strconv"
 	"strings"
@@ -19,6 +20,16 @@ const verifDir = "/verif"
 // Baseline: obligation names discharged on the delivered tree, per property (committed, never written by `check`).
 type Baseline struct {
 	Properties map[string][]string `json:"properties"`
+	// Locals: the variables of every function under contract on the delivered tree (rename recovery, see checkClause)
+	Locals map[string][]localInfo `json:"locals,omitempty"`
+}
+
+// loadBaselineLocals makes the delivered tree's variable lists available to clause binding.
+func loadBaselineLocals() {
+	var base Baseline
+	if loadJSON(filepath.Join(verifDir, "baseline", "obligations.json"), &base) == nil && base.Locals != nil {
+		baselineLocals = base.Locals
+	}
 }
 
 // KnownFindings: recorded defects (not repaired) and repaired ones (fixed entries suppress nothing).
@@ -103,6 +114,9 @@ type runResult struct {
 // runProperty generates and discharges every obligation serving a property ("" = all).
 func runProperty(repo, prop string, timeoutSec, seed int, smtDir string) (*runResult, error) {
 	start := time.Now()
+	if baselineLocals == nil && prop != "" {
+		loadBaselineLocals()
+	}
 	prog, err := LoadProgram(repo)
 	if err != nil {
 		return nil, err
@@ -296,7 +310,7 @@ func cmdCheck(args []string) int {
 	}
 	var missing []string
 	for _, n := range base.Properties[*prop] {
-		if !present[n] && !present[sKey(n)] && !strings.Contains(n, "#S.") {
+		if !present[n] && !present[sKey(n)] && isTopLevelClaim(n) {
 			missing = append(missing, n)
 		}
 	}
@@ -521,6 +535,12 @@ func cmdBaseline(args []string) {
 	for p := range base.Properties {
 		sort.Strings(base.Properties[p])
 	}
+	base.Locals = map[string][]localInfo{}
+	for _, c := range rr.prog.Contracts {
+		if c.Fn != nil {
+			base.Locals[c.Fn.Key] = localsOf(c.Fn)
+		}
+	}
 	os.MkdirAll(filepath.Join(verifDir, "baseline"), 0o755)
 	b, _ := json.MarshalIndent(base, "", " ")
 	os.WriteFile(filepath.Join(verifDir, "baseline", "obligations.json"), b, 0o644)
@@ -579,6 +599,15 @@ func cmdAxioms(args []string) {
 func thoroughExtras(repo, prop string, seed int, extra map[string]any) int {
 	return runBounded(repo, prop, seed, extra)
 }
+
+// isTopLevelClaim: obligations that state what a contract promises to its callers (postconditions, exceptional
+// postconditions, iterator results, determinism / no-global-state analyses, lemma assertions). Only THESE must still be
+// generated on a changed tree: internal obligations (loop invariants, per-site safety obligations, frame obligations
+// per touched field, closure preconditions, vacuity covers) legitimately come and go when code is restructured, and
+// their disappearance alone is not evidence against the property.
+var topLevelRe = regexp.MustCompile(`#(F\.ensures\[\d+\]|F\.onpanic\[|F\.yields2?\[|F\.assert|F\.panics-allowed|R\.functional|R\.noglobals|R\.noglobalstate)`)
+
+func isTopLevelClaim(name string) bool { return topLevelRe.MatchString(name) }
 
 // crossCheck (thorough tier): every obligation discharged by one back end is put to a DIFFERENT back end as well; a `sat`
 // answer there would be a disagreement between solvers (reported in evidence and on stdout, never hidden).
